@@ -351,6 +351,21 @@ func (st *Stream) Reset(why string) {
 	st.cliCan()
 }
 
+// CloseClean is the "transport ended the stream cleanly" fault: the client's next receive
+// returns io.EOF (no error), the relay's handler sees its context end.
+func (st *Stream) CloseClean() {
+	st.mu.Lock()
+	if st.dead {
+		st.mu.Unlock()
+		return
+	}
+	st.dead = true
+	st.mu.Unlock()
+	st.C2S.Reset(dsim.ErrReset)
+	_ = st.S2C.Send(dsim.Item{Ctl: "eof"})
+	st.srvCan()
+}
+
 // Alive reports whether the stream can still carry traffic in some direction.
 func (st *Stream) Alive() bool {
 	st.mu.Lock()
@@ -402,6 +417,20 @@ func (n *Net) DeliveryActions(add func(dsim.Action)) {
 				add(dsim.Action{Name: "1dlv:" + p.Name, Weight: 10, Fire: p.Deliver})
 			}
 		}
+	}
+}
+
+// CleanCloseActions enumerates a clean-close fault per live started stream.
+func (n *Net) CleanCloseActions(add func(dsim.Action), weight int) {
+	for _, st := range n.Streams() {
+		if !st.Alive() || !st.Started() {
+			continue
+		}
+		st := st
+		add(dsim.Action{Name: "5flt:clean-close:" + st.Name, Weight: weight, Fault: true, Fire: func() {
+			n.S.Count("fault:stream-closed-cleanly")
+			st.CloseClean()
+		}})
 	}
 }
 
